@@ -603,8 +603,22 @@ func ChanClosed[T any](ch <-chan T) bool { return chanClosedP(chanPtr(ch)) }
 //go:norace
 func Aborting() bool { return aborting }
 
+// outside is true while no execution is in progress (package initialisation, between executions):
+// the shims then perform the plain operation - e.g. a package-level variable initialised with a
+// closed channel really gets a closed channel. (During the teardown of an execution the shims are
+// no-ops instead: deferred library code must not touch anything.)
+var outside = true
+
+// Outside reports whether no execution is in progress.
+//
+//go:norace
+func Outside() bool { return outside }
+
 func Recv1[T any](ch <-chan T) T {
 	var z T
+	if outside {
+		return <-ch
+	}
 	if selectCases(false, []Case{RecvCase(ch)}) < 0 {
 		return z
 	}
@@ -613,6 +627,10 @@ func Recv1[T any](ch <-chan T) T {
 
 func Recv2[T any](ch <-chan T) (T, bool) {
 	var z T
+	if outside {
+		v, ok := <-ch
+		return v, ok
+	}
 	if selectCases(false, []Case{RecvCase(ch)}) < 0 {
 		return z, false
 	}
@@ -621,6 +639,10 @@ func Recv2[T any](ch <-chan T) (T, bool) {
 }
 
 func Send[T any](ch chan<- T, v T) {
+	if outside {
+		ch <- v
+		return
+	}
 	if selectCases(false, []Case{SendCase(ch)}) < 0 {
 		return
 	}
@@ -629,6 +651,10 @@ func Send[T any](ch chan<- T, v T) {
 }
 
 func Close[T any](ch chan<- T) {
+	if outside {
+		close(ch)
+		return
+	}
 	PointOp(OpClose)
 	if Aborting() {
 		return
@@ -988,6 +1014,7 @@ func begin(pfx []int32, hz int32) {
 		prefix[i] = pfx[i]
 	}
 	horizon = hz
+	outside = false
 	aborting, ending = false, false
 	EndReason, FailOracle, FailMsg = 0, "", ""
 	for i := range ctrs {
@@ -1051,6 +1078,7 @@ func teardown() {
 		regPtr[i] = nil
 	}
 	curT = nil
+	outside = true
 }
 
 //go:norace
